@@ -44,12 +44,13 @@ void MpiWorld::yield_from(int r)
     cv_.wait(lock, [&] { return baton_ == r; });
 }
 
-int MpiWorld::allreduce(int r, void* buf, int count, int dtype)
+int MpiWorld::allreduce(int r, void* buf, int count, int dtype, int comm)
 {
     Rank& me = ranks[r];
     me.buf = buf;
     me.count = count;
     me.dtype = dtype;
+    me.comm = comm;
     me.st = WAITING;
 
     CollRec rec;
@@ -71,11 +72,37 @@ int MpiWorld::allreduce(int r, void* buf, int count, int dtype)
     return MPI_SUCCESS;
 }
 
+std::vector<int> MpiWorld::members_of(int comm, int world_rank) const
+{
+    std::vector<int> m;
+    for (int r = 0; r != size(); ++r)
+    {
+        if (comm == 0 || ranks[r].color == ranks[world_rank].color) m.push_back(r);
+    }
+    return m;
+}
+
+int MpiWorld::comm_rank(int comm, int world_rank) const
+{
+    if (comm == 0) return world_rank;
+    int n = 0;
+    for (int r = 0; r != world_rank; ++r)
+    {
+        if (ranks[r].color == ranks[world_rank].color) ++n;
+    }
+    return n;
+}
+
+int MpiWorld::comm_size(int comm, int world_rank) const
+{
+    return static_cast<int>(members_of(comm, world_rank).size());
+}
+
 template <typename T>
 static void reduce_typed(std::vector<MpiWorld::Rank>& ranks, std::vector<int> const& order, int rorder,
     Rng& rng, int count)
 {
-    std::size_t const P = ranks.size();
+    std::size_t const P = order.size();
     std::vector<T> out(count);
 
     // the shape of a random reduction tree is drawn once per collective, as a list of pair merges
@@ -121,18 +148,17 @@ static void reduce_typed(std::vector<MpiWorld::Rank>& ranks, std::vector<int> co
 
     for (std::size_t k = 0; k != P; ++k)
     {
-        if (count != 0) std::memcpy(ranks[k].buf, out.data(), sizeof(T) * count);
+        if (count != 0) std::memcpy(ranks[order[k]].buf, out.data(), sizeof(T) * count);
     }
 }
 
-void MpiWorld::reduce_all()
+void MpiWorld::reduce_group(std::vector<int> const& members)
 {
-    std::size_t const P = ranks.size();
-    int const count = ranks[0].count;
-    int const dtype = ranks[0].dtype;
+    std::size_t const P = members.size();
+    int const count = ranks[members[0]].count;
+    int const dtype = ranks[members[0]].dtype;
 
-    std::vector<int> order(P);
-    for (std::size_t k = 0; k != P; ++k) order[k] = static_cast<int>(k);
+    std::vector<int> order(members);
 
     if (rorder_ == 1 || rorder_ == 2)
     {
@@ -144,10 +170,18 @@ void MpiWorld::reduce_all()
 
     interleave.u64(0xC011);
     bool in_rank_order = true;
-    for (std::size_t k = 0; k != arrival_.size(); ++k)
+    std::size_t pos = 0;
+    std::vector<int> rest;
+    for (int a : arrival_)
     {
-        interleave.u64(static_cast<std::uint64_t>(arrival_[k]));
-        if (arrival_[k] != static_cast<int>(k)) in_rank_order = false;
+        if (std::find(members.begin(), members.end(), a) == members.end())
+        {
+            rest.push_back(a);
+            continue;
+        }
+        interleave.u64(static_cast<std::uint64_t>(a));
+        if (pos < P && a != members[pos]) in_rank_order = false;
+        ++pos;
     }
     if (!in_rank_order) ++reorders;
     for (int o : order) interleave.u64(static_cast<std::uint64_t>(o) + 1000);
@@ -166,7 +200,7 @@ void MpiWorld::reduce_all()
     }
 
     ++collectives;
-    arrival_.clear();
+    arrival_.swap(rest);
 }
 
 void MpiWorld::run(std::function<void(int)> const& body)
@@ -176,8 +210,6 @@ void MpiWorld::run(std::function<void(int)> const& body)
 
     for (int r = 0; r != P; ++r)
     {
-        ranks[r].ctx.rank = r;
-        ranks[r].ctx.world = P;
         ranks[r].th = std::thread([self, r, &body] {
             current_world() = self;
             current_rank() = r;
@@ -301,29 +333,41 @@ void MpiWorld::run(std::function<void(int)> const& body)
             continue;
         }
 
-        bool ok = (waiting == P);
+        // complete every collective whose whole communicator is waiting in it with matching arguments
+        bool progressed = false;
         std::string why;
+        std::vector<char> seen(P, 0);
 
-        if (!ok)
+        for (int r = 0; r != P; ++r)
         {
-            why = "rank(s) returned while others wait in a collective";
-        }
-        else
-        {
-            for (int r = 1; r != P; ++r)
+            if (seen[r] || ranks[r].st != WAITING) continue;
+            std::vector<int> const members = members_of(ranks[r].comm, r);
+            bool complete = true, match = true;
+            for (int mbr : members)
             {
-                if (ranks[r].count != ranks[0].count || ranks[r].dtype != ranks[0].dtype)
-                {
-                    ok = false;
-                    why = "collectives do not match (count/datatype differ between ranks)";
-                }
+                seen[mbr] = 1;
+                if (ranks[mbr].st != WAITING || ranks[mbr].comm != ranks[r].comm) complete = false;
+                else if (ranks[mbr].count != ranks[r].count || ranks[mbr].dtype != ranks[r].dtype) match = false;
             }
+            if (!complete)
+            {
+                why = "rank(s) returned while others wait in a collective";
+                continue;
+            }
+            if (!match)
+            {
+                why = "collectives do not match (count/datatype differ between ranks)";
+                continue;
+            }
+            reduce_group(members);
+            for (int mbr : members) ranks[mbr].st = RUNNABLE;
+            progressed = true;
         }
 
-        if (!ok)
+        if (!progressed)
         {
             hang = true;
-            hang_why = why;
+            hang_why = why.empty() ? "nobody can run" : why;
             aborted = true;
             for (auto& k : ranks)
             {
@@ -333,10 +377,6 @@ void MpiWorld::run(std::function<void(int)> const& body)
             arrival_.clear();
             continue;
         }
-
-        reduce_all();
-
-        for (auto& k : ranks) k.st = RUNNABLE;
     }
 
     for (auto& k : ranks)
@@ -347,21 +387,22 @@ void MpiWorld::run(std::function<void(int)> const& body)
 
 }
 
-extern "C" int MPI_Comm_rank(MPI_Comm, int* rank)
+extern "C" int MPI_Comm_rank(MPI_Comm comm, int* rank)
 {
-    *rank = sim::current_rank();
+    sim::MpiWorld* w = sim::current_world();
+    *rank = (w != nullptr) ? w->comm_rank(comm, sim::current_rank()) : 0;
     return MPI_SUCCESS;
 }
 
-extern "C" int MPI_Comm_size(MPI_Comm, int* size)
+extern "C" int MPI_Comm_size(MPI_Comm comm, int* size)
 {
     sim::MpiWorld* w = sim::current_world();
-    *size = (w != nullptr) ? w->size() : 1;
+    *size = (w != nullptr) ? w->comm_size(comm, sim::current_rank()) : 1;
     return MPI_SUCCESS;
 }
 
 extern "C" int MPI_Allreduce(void const* sendbuf, void* recvbuf, int count, MPI_Datatype datatype,
-    MPI_Op, MPI_Comm)
+    MPI_Op, MPI_Comm comm)
 {
     sim::MpiWorld* w = sim::current_world();
 
@@ -372,5 +413,5 @@ extern "C" int MPI_Allreduce(void const* sendbuf, void* recvbuf, int count, MPI_
         return MPI_SUCCESS;
     }
 
-    return w->allreduce(sim::current_rank(), recvbuf, count, datatype);
+    return w->allreduce(sim::current_rank(), recvbuf, count, datatype, comm);
 }
